@@ -28,6 +28,11 @@ def tmod(a, b):
     return a - b * tdiv(a, b)
 
 
+# signed modulo is ambiguous across conventions (C/bvsrem: sign of the dividend,
+# Python/bvsmod: sign of the divisor); callers may flip this to accept either.
+SMOD_FLOOR = False
+
+
 def binop(sym, l, r, w, lsf=False, rsf=False, strict_sign=True):
     """value of (l sym r) where l, r are unsigned representatives of width w
     (for shifts r may have any width). Returns (value, width)."""
@@ -90,7 +95,7 @@ def binop(sym, l, r, w, lsf=False, rsf=False, strict_sign=True):
         if sym == "/":
             return tdiv(a, b) & m, w
         if sym == "%":
-            return tmod(a, b) & m, w
+            return ((a % b) if SMOD_FLOOR else tmod(a, b)) & m, w
     raise Unknown("operator %s" % sym)
 
 
